@@ -573,6 +573,38 @@ fn mode_c03long(args: &std::collections::HashMap<String, String>) -> Value {
             let _ = std::fs::remove_file(&path);
         }
     }
+    // Sparse changes: consecutive publications that differ in a single field only (the daemon does
+    // exactly that when only the status changes). Compared by full equality, not by keyed decoding.
+    let mut sparse_checks = 0u64;
+    if shard == 0 {
+        use clock_bound_shm::{ClockErrorBound, ClockStatus};
+        let path = dir.join("sparse");
+        let mut writer = ShmWriter::new(&path).unwrap();
+        let cpath = CString::new(path.to_str().unwrap()).unwrap();
+        let mut rng = Rng::new(seed ^ 0x5BA25E);
+        let mut f: [i64; 8] = [100, 5, 1100, 0, 777, 1000, 0, 1];
+        let mk = |f: &[i64; 8]| ClockErrorBound::new(libc::timespec { tv_sec: f[0], tv_nsec: f[1] }, libc::timespec { tv_sec: f[2], tv_nsec: f[3] }, f[4], f[5] as u32, f[6] as u32,
+                                                     match f[7] { 1 => ClockStatus::Synchronized, 2 => ClockStatus::FreeRunning, _ => ClockStatus::Unknown });
+        writer.write(&mk(&f));
+        let mut attached = ShmReader::new(&cpath).unwrap();
+        let _ = attached.snapshot();
+        for step in 0..(400 * rounds.max(1)) {
+            let k = if step % 3 == 0 { 7 } else { rng.below(8) as usize };
+            f[k] = match k { 7 => (f[7] + 1 + rng.below(2) as i64) % 3, 1 | 3 => (f[k] + 1) % 1_000_000_000, _ => f[k] + 1 };
+            let rec = mk(&f);
+            writer.write(&rec);
+            sparse_checks += 1;
+            let got_attached = attached.snapshot().map(|c| *c);
+            let got_fresh = ShmReader::new(&cpath).and_then(|mut r| r.snapshot().map(|c| *c));
+            for (who, got) in [("attached", got_attached), ("fresh", got_fresh)] {
+                if got != Ok(rec) && violations.len() < 20 {
+                    violations.push(json!({"sig":"stale-after-single-field-change","detail":format!("publication #{} changed only field {} of the record; with the writer idle the {} reader returned {:?}, published {:?}", step, ["as_of.sec","as_of.nsec","void_after.sec","void_after.nsec","bound","max_drift","reserved","status"][k], who, got, rec),"replay":""}));
+                }
+            }
+        }
+        drop(writer);
+        let _ = std::fs::remove_file(&path);
+    }
     for (n, v) in violations.iter_mut().enumerate() {
         let rp = format!("{}/C03-long-{}-{}.json", replay_dir, seed, n);
         vworld::write_json(&rp, &json!({"property":"C03","engine":"c03long","seed":seed,"violation":v.clone()}));
@@ -580,7 +612,7 @@ fn mode_c03long(args: &std::collections::HashMap<String, String>) -> Value {
     }
     violations.truncate(20);
     let _ = std::fs::remove_dir_all(&dir);
-    json!({"evaluations": evaluations, "distinct": distinct.len(), "idle_calls": idle_calls, "wrap_crossings": wrap_crossings, "exception_cases": exception_cases, "violations": violations, "samples": samples})
+    json!({"evaluations": evaluations, "distinct": distinct.len(), "idle_calls": idle_calls, "wrap_crossings": wrap_crossings, "exception_cases": exception_cases, "sparse_change_checks": sparse_checks, "violations": violations, "samples": samples})
 }
 
 /// C18: the lock-step adversary (one complete update between the copy and the re-check of every
